@@ -2,7 +2,8 @@
    Only statements closed by [exact]; proofs live in C17/ (and Comb/FermiProofs.v). *)
 From Coq Require Import ZArith List.
 From PV Require Import Comb.FockModel Comb.FermiModel Comb.FermiProofs
-  C17.FermiRepModel C17.FermiWalkProofs C17.FermiRepProofs C17.FermiParityProofs.
+  C17.FermiRepModel C17.FermiWalkProofs C17.FermiRepProofs C17.FermiParityProofs
+  C17.FermiBasisProofs C17.FermiSequenceProofs.
 From mathcomp Require ssralg seq.
 From PV Require C17.FermiDetMC C17.FermiRepDetMC.
 Import ListNotations.
@@ -13,6 +14,13 @@ Open Scope Z_scope.
 Theorem C17_walk_is_sector : forall d n, fq_walk (Z.of_nat d) n = map to_fq (f_sector d n).
 Proof. exact fq_walk_f_sector. Qed.
 Print Assumptions C17_walk_is_sector.
+
+(* the code's full basis loop (zeros, then next_second_quantized, f_cutoff_dim times) is the
+   recursive specification across sector boundaries, for every d and every cutoff c <= d+1 *)
+Theorem C17_fermionic_basis_loop_is_spec : forall d c, (c <= d + 1)%nat ->
+  f_basis d (Z.of_nat c) = f_basis_spec d c.
+Proof. exact f_basis_is_spec. Qed.
+Print Assumptions C17_fermionic_basis_loop_is_spec.
 
 (* every strictly increasing index list sits at the position given by the rank formula *)
 Theorem C17_rank_is_position : forall d n X, incr 0 X (Z.of_nat d) -> length X = n ->
@@ -103,6 +111,30 @@ Theorem C17_cphase_diagonal : forall (A : Type) (zero : A) (mul : A -> A -> A)
 Proof. exact cphase_diagonal. Qed.
 Print Assumptions C17_cphase_diagonal.
 
+(* parity of the particle number is conserved by every gate sequence: for every occupation
+   input on d modes and every list of well-formed gates (passive gates on distinct modes,
+   two-mode squeezing / Ising-XX on two different modes, controlled phase; cutoff d+1), the
+   final state vector of the model has no amplitude on a basis vector of the other parity
+   (induction over the gate list; over any structure with x*0 = 0 and 0+0 = 0) *)
+Theorem C17_parity_conserved :
+  forall (A : Type) (zero one : A) (add mul : A -> A -> A) (opp : A -> A),
+  (forall x, mul x zero = zero) -> add zero zero = zero ->
+  forall d occ gs i, length occ = d -> bits occ -> Forall (gate_wf A d) gs ->
+  0 <= i -> cls d i <> sumZ occ mod 2 ->
+  sget A zero (run_program A zero one add mul opp d (S d) occ gs) i = zero.
+Proof. exact parity_conserved. Qed.
+Print Assumptions C17_parity_conserved.
+
+(* the same invariant for any class of indices the gate tables respect *)
+Theorem C17_gates_keep_class :
+  forall (A : Type) (zero one : A) (add mul : A -> A -> A) (opp : A -> A),
+  (forall x, mul x zero = zero) -> add zero zero = zero ->
+  forall (bad : Z -> Prop) d cutoff gs psi,
+  Forall (gate_ok A bad d cutoff) gs -> clean A zero bad psi ->
+  clean A zero bad (fold_left (fun st g => apply_gate A zero one add mul opp d cutoff g st) gs psi).
+Proof. exact gates_keep_clean. Qed.
+Print Assumptions C17_gates_keep_class.
+
 (* exclusion: the basis consists of exactly the 0/1 vectors (shared Comb/FermiProofs.v) *)
 Theorem C17_occupations_are_bits : forall d c v,
   In v (f_basis_spec d c) <->
@@ -117,5 +149,7 @@ Example C17_example_minor :
   nth 2 (reps_generic Z 0 1 Z.add Z.mul Z.opp [[1; 2; 3]; [4; 5; 6]; [7; 8; 10]] 4) []
   = [[-3; -6; -3]; [-6; -11; -4]; [-3; -2; 2]].
 Proof. vm_compute. reflexivity. Qed.
+Example C17_example_parity_class : cls 3 5 = 0 /\ cls 3 2 = 1.
+Proof. split; vm_compute; reflexivity. Qed.
 Example C17_example_valid : valid 5 3 [0; 2; 4] /\ rank 5 [0; 2; 4] = 4.
 Proof. repeat split; vm_compute; congruence. Qed.
